@@ -41,7 +41,7 @@ theorem ifaceEq_eq_fixed (d : Dev) (l r : Val) (h : d.uncmp = true → sameConta
   cases hu : d.uncmp
   · cases l <;> cases r <;> simp [ifaceEq, hu, Dev.fixed]
   · have := h hu
-    cases l <;> cases r <;> simp_all [ifaceEq, Dev.fixed, sameContainer, isArr, isObj]
+    cases l <;> cases r <;> simp_all [ifaceEq, sameContainer, isArr, isObj]
 
 theorem inLoop_eq_fixed (d : Dev) (l : Val) (xs : List Val)
     (h : d.uncmp = true → xs.any (sameContainer l) = false) : inLoop d l xs = inLoop Dev.fixed l xs := by
@@ -70,10 +70,12 @@ theorem ordering_eq_fixed (d : Dev) (fi : Int → Int → Bool) (ff : Flt → Fl
   cases l <;> cases r <;> try rfl
   case int.flt a b =>
     have : d.toF a = .fin a 0 := toF_exact d a (fun hv => by simpa using h hv)
-    simp [ordering, this, Dev.toF, Dev.fixed]
+    simp only [ordering, this]
+    rfl
   case flt.int a b =>
     have : d.toF b = .fin b 0 := toF_exact d b (fun hv => by simpa using h hv)
-    simp [ordering, this, Dev.toF, Dev.fixed]
+    simp only [ordering, this]
+    rfl
 
 set_option maxHeartbeats 1000000 in
 /-- outside the three named classes every operator `case` of the model — for ANY combination of
@@ -91,20 +93,24 @@ theorem evalOp_eq_spec_of (d : Dev) (rx : RxEngine) (o : Op) (l r : Val)
     cases l <;> cases r <;> simp only [evalOp, h1] <;> try rfl
     case int.flt a b =>
       have : d.toF a = .fin a 0 := toF_exact d a (fun h => by simpa using hv h)
-      simp [this, Dev.toF, Dev.fixed]
+      rw [this]
+      rfl
     case flt.int a b =>
       have : d.toF b = .fin b 0 := toF_exact d b (fun h => by simpa using hv h)
-      simp [this, Dev.toF, Dev.fixed]
+      rw [this]
+      rfl
   case neq =>
     have h1 := ifaceEq_eq_fixed d l r hu
     simp only [bigMixed, isCmp, Bool.true_and] at hv
     cases l <;> cases r <;> simp only [evalOp, h1] <;> try rfl
     case int.flt a b =>
       have : d.toF a = .fin a 0 := toF_exact d a (fun h => by simpa using hv h)
-      simp [this, Dev.toF, Dev.fixed]
+      rw [this]
+      rfl
     case flt.int a b =>
       have : d.toF b = .fin b 0 := toF_exact d b (fun h => by simpa using hv h)
-      simp [this, Dev.toF, Dev.fixed]
+      rw [this]
+      rfl
     case flt.flt a b =>
       -- two different floats: the pinned code answers false
       cases hn : d.neqFlt
